@@ -49,6 +49,14 @@ def plan(seed, subbatch):
             per_bucket = max(1, tf_s // base_s)
             n = cfg.randint(4, 25)
             faults = {"halt": {"p": 0.12, "min": 300 * per_bucket, "max": 1200 * per_bucket}}
+    giant = subbatch == "faulty" and cfg.random() < (0.01 if planlib.thorough() else 0.002)
+    if giant:
+        # tens of thousands of buckets delivered in ONE pass (back-fill at construction) with gaps early on
+        n = cfg.randint(20500, 23000)
+        tf = world.pick_timeframe(cfg, base_s, 1.0, 1.0, allow_finer=False)
+        tf_s = tf_seconds(tf)
+        faults = {"drop": {"p": 0.0005, "max": 4}}
+        burst, p_empty, recoll, mega = None, 0.0, 0, True
     start = world.pick_start(cfg, base_s, tf_s)
     op_rng = sub_rng(seed, "operator")
     extras = [(op_rng.random(), {"op": "recollapse", "times": op_rng.randint(1, 2)}) for _ in range(recoll)]
@@ -57,7 +65,10 @@ def plan(seed, subbatch):
         regimes = world.REGIMES_NORMAL + ["zerovol", "stall0", "stall"]
     pre, ops, fired, rows = planlib.stream_and_schedule(seed, subbatch, n, base_s, start, faults, burst,
                                                         p_empty, extras, max_span_s=(100000 if mega else 1500) * tf_s, regimes=regimes,
-                                                        regime_len=(1, 12))
+                                                        regime_len=(1, 12), preload=(n - 3 if giant else None),
+                                                        style=("ones" if giant else None))
+    if giant:
+        fired["giant_batch_runs"] += 1
     lifespan = None
     if subbatch == "faulty" and cfg.random() < 0.3:
         # filling interacting with eviction: the expected series is the window of the filled reference
